@@ -134,6 +134,43 @@ def line_parser_rules(ctx):
     ctx.check(len(ex) == 1 and peel(ol.operand(ex[0][1]["args"][0])).kind == "arg", "exit-code-line", lp.where(), "the exit code is extracted from the unmodified line")
 
 
+PANICKING = {"Option::unwrap", "Option::expect", "Result::unwrap", "Result::expect"}
+CONVERSIONS = {"str::parse", "FromStr::from_str", "from_str_radix", "char::to_digit", "TryFrom::try_from", "TryInto::try_into", "String::from_utf8",
+               "str::from_utf8", "from_utf8", "serde_yaml::from_str", "from_str", "parse_duration", "char::from_u32", "char::from_digit"}
+PARSE_SCOPE = ("src/parsers/", "src/expectation.rs", "src/rules/", "src/config.rs", "src/escaping.rs", "src/newline.rs")
+
+
+def _conversion_panics(prog, scope=PARSE_SCOPE):
+    """(body, bb, method, conversion) for every unwrap/expect whose receiver is the result of a fallible text -> value conversion"""
+    for b in prog.bodies:
+        if b.promoted is not None or "::tests" in b.npath or not any(b.file.startswith(s) for s in scope):
+            continue
+        o = None
+        for bb, t in b.calls():
+            m = method_name(callee_name(t, resolved=False) or "")
+            if m not in PANICKING:
+                continue
+            o = o or Origins(b)
+            recv = o.operand(t["args"][0])
+            conv = [n.a for n in recv.walk() if n.kind == "call" and (method_name(n.a) in CONVERSIONS or method_name(n.a).split("::")[-1] in CONVERSIONS)]
+            yield b, bb, m, conv, recv
+
+
+def total_parsing_rules(ctx):
+    """shared by C06 and C07 (`never crashes`): no panic on a data-dependent conversion of document text in the parsing layer.
+    A digit-only regex group still overflows i32; such results must stay `Option`/`Result` (`.ok()`, `?`)."""
+    n = 0
+    for b, bb, m, conv, recv in _conversion_panics(ctx.prog):
+        n += 1
+        key = "unwrap:%s#%d" % (b.npath.split("::")[-1] if not b.npath.startswith("<") else b.name, n)
+        ctx.check(not conv, key, b.loc(bb), "%s on %s: not a text conversion (constant pattern / capture of a successful match)" % (m, recv.show()[:60]),
+                  "%s on the result of %s: document text that does not convert (overflow, invalid digits/bytes) crashes the parser instead of being "
+                  "read as an ordinary line or reported as a parse error" % (m, ", ".join(sorted(set(method_name(c) for c in conv)))))
+    if ctx.ctrl is not None:
+        hits = [b.npath for b, bb, m, conv, recv in _conversion_panics(ctx.ctrl, scope=("src/",)) if conv]
+        ctx.control("parse-expect", any("control_parse_expect" in h for h in hits), "fixtures/positive control_parse_expect")
+
+
 def r7_3(ctx):
     prog = ctx.prog
     f = _parse(prog)
@@ -216,4 +253,5 @@ def run(ctx):
     ctx.run_rule("R7.1", "line classification: comment -> skipped, empty -> end_testcase, indented -> body, else -> title; tests look at the raw line; indentation = self.indention spaces [E-PATH]", r7_1, floor=11)
     ctx.run_rule("R7.2", "no rewriting: body = line minus indentation; command = body minus `$ `/`> `; expectation and exit-code lines unmodified [E-FLOW]", r7_2, floor=6)
     ctx.run_rule("R7.3", "Cram defaults pairing: set_testcase_config(default_cram()) after every body line and before the final end_testcase; config reset only in flush after the push [E-STATE pairing]", r7_3, floor=7)
+    ctx.run_rule("R7.5", "total parsing: no unwrap/expect on a fallible text conversion (parse, from_str, from_utf8, try_into ..) in parsers / expectation / rules / config (shared with C06 R6.11) [E-SITE]", total_parsing_rules, floor=5)
     ctx.run_rule("R7.4", "index-unit and len()-k sweeps over the Cram / line parser [E-UNIT]", r7_4, floor=1)
